@@ -54,8 +54,6 @@ void atomic_flag_clear(atomic_flag *);
 #endif
 """
 
-W = 1 << 64
-
 # translation units: source file, private structs whose size is needed, functions in dependency order
 UNITS = [
     dict(src="memory.c", structs=["cstl_shared_ptr_data"],
@@ -180,6 +178,7 @@ class MFn:
         self.nloops = 0
         self.loops = []         # rendered loop definitions
         self.has_loop = False
+        self.from_gget = set()  # locals whose current value came from cstl_guarded_ptr_get[_const]
         for p in decl["inner"]:
             if p["kind"] != "ParmVarDecl":
                 continue
@@ -612,7 +611,10 @@ class MFn:
 
         if lv[0] == "var":
             n = lv[1]
+            self.note_origin(n, rhs_node)
             t, k = value(self.kinds[n])
+            if k == "prop" and self.kinds[n] == "bool":
+                t, k = "decide %s" % t, "bool"
             if k != self.kinds[n]:
                 raise Unsupported("assignment of %s to %s variable %s" % (k, self.kinds[n], n))
             out.append({"k": "let", "var": n, "val": t})
@@ -653,6 +655,16 @@ class MFn:
             return t, k
         raise Unsupported("assignment to %s" % lv[0])
 
+    def note_origin(self, n, rhs):
+        self.from_gget.discard(n)
+        if rhs is None:
+            return
+        r = self.strip(rhs)
+        if r["kind"] == "CallExpr":
+            c = self.strip(r["inner"][0])
+            if c.get("referencedDecl", {}).get("name") in ("cstl_guarded_ptr_get", "cstl_guarded_ptr_get_const"):
+                self.from_gget.add(n)
+
     def block(self, lst):
         out = []
         for s in lst:
@@ -686,7 +698,10 @@ class MFn:
                 self.ctype[n] = norm_type(v["type"]["qualType"])
                 init = [c for c in v.get("inner", []) if "Comment" not in c["kind"]]
                 if init:
+                    self.note_origin(n, init[0])
                     t, tk = self.expr(init[0], out, want=kk)
+                    if tk == "prop" and kk == "bool":
+                        t, tk = "decide %s" % t, "bool"
                     if tk != kk:
                         raise Unsupported("initialiser of kind %s for %s variable %s" % (tk, kk, n))
                 else:
@@ -778,7 +793,7 @@ class MFn:
             if b["kind"] == "NULL" and e["opcode"] in ("==", "!="):
                 if a["kind"] == "DeclRefExpr":
                     n = a["referencedDecl"]["name"]
-                    if BLOCK_PTRS.get(self.ctype.get(n)) == "data":
+                    if BLOCK_PTRS.get(self.ctype.get(n)) == "data" and n in self.from_gget:
                         return ("ptr", e["opcode"] == "!=")
                 if a["kind"] == "MemberExpr":
                     try:
@@ -936,6 +951,8 @@ class MFn:
     def sk_if(self, s, lst, i, sks):
         rest = lst[i + 1:]
         tt, te = self.terminates(s["then"]), self.terminates(s["else"])
+        if "value" in s:
+            tt = te = False     # a short-circuit operand yields a value, it does not leave the function
         if tt or te:
             th = self.sk_list(s["then"] + ([] if tt else rest), 0, sks)
             el = self.sk_list(s["else"] + ([] if te else rest), 0, sks)
@@ -974,11 +991,6 @@ def sk_text(t):
     if t[0] == "sel":
         return "(.sel .%s %s %s %s)" % (t[1], sk_text(t[2]), sk_text(t[3]), sk_text(t[4]))
     raise Unsupported("skeleton node %s" % t[0])
-
-
-SK_DOC = {
-    "nil": "", "step": "", "spin": "", "app": "", "test": "", "sel": "",
-}
 
 
 def translate(repo):
